@@ -317,6 +317,15 @@ func pairTableCases(big bool) []ExecCase {
 						ExecCase{Path: mode + cmp, Doc: doc},
 						ExecCase{Path: mode + "(" + cmp + ") is unknown", Doc: doc},
 						ExecCase{Path: mode + "$ ? (@.a[*] " + op + " @.b[*]).a", Doc: doc})
+					if mode != "" && len(a)+len(b) <= 14 {
+						// the same predicate in the tail after .**: strict mode stays strict there (every pair is
+						// examined) although structural errors are skipped. A document without objects, so that
+						// the member order is not in play; .**{0} selects the root only.
+						doc2 := "[" + a + "," + b + "]"
+						out = append(out, ExecCase{Path: mode + "$.**{0} ? (@[0][*] " + op + " @[1][*])", Doc: doc2},
+							ExecCase{Path: mode + "$.**{0} ? (exists(@[0][*] ? (@ " + op + " 1)))", Doc: doc2},
+							ExecCase{Path: mode + "$.**{0} ? ((@[0][*] " + op + " @[1][*]) is unknown)", Doc: doc2})
+					}
 				}
 			}
 		}
